@@ -110,6 +110,7 @@ structure St where
   seqOut : Nat := 0
   rx : List Nat := []           -- ghost: types received, in order
   tx : List Sent := []          -- ghost: messages sent, in order
+  kexScript : Option Engine := none  -- ghost: the engine as negotiated by the latest KEXINIT, before any step
   deriving Repr, DecidableEq, Inhabited
 
 /-- outcome of `_really_parse_kex_init` + negotiation for a KEXINIT (negotiation itself is C05's model) -/
@@ -215,7 +216,7 @@ def negotiateKeys (s : St) (seqno : Nat) (x : Ext) : St :=
     if s.agreedStrict ∧ ¬ s.initialKexDone ∧ seqno ≠ 0 then s.fail .strictOrder else
     match k with
     | .ok e =>
-      ({ s with engine := some e }.sendAll e.startSends).andThen fun s =>
+      ({ s with engine := some e, kexScript := some e }.sendAll e.startSends).andThen fun s =>
         { s with expected := e.cur.accept }
     | _ => s.fail .incompatible
 
